@@ -185,15 +185,35 @@ func trunc8(id string) string {
 	return id
 }
 
-// allIDs: every request id on record in a base state, plus the unknown one.
-func allIDs(b base) []string {
-	var out []string
-	for _, d := range []string{"d1", "d2"} {
-		for _, r := range runsOf(b, d) {
-			out = append(out, r.ID)
+// idRelation: how a request id relates to the other ids on record for the same DAG, with respect to the 8
+// characters that go into the file name ("" = unrelated: signature facet of the edit verdicts).
+func idRelation(id string, runs []string) string {
+	share, isPrefix, extends := false, false, false
+	for _, r := range runs {
+		switch {
+		case r == id:
+		case strings.HasPrefix(r, id):
+			isPrefix = true
+		case strings.HasPrefix(id, r):
+			extends = true
+		case trunc8(r) == trunc8(id):
+			share = true
 		}
 	}
-	return append(out, unknownID)
+	var p []string
+	if share {
+		p = append(p, "shares-first-8")
+	}
+	if isPrefix {
+		p = append(p, "is-prefix-of-another")
+	}
+	if extends {
+		p = append(p, "extends-another")
+	}
+	if len(p) == 0 {
+		return ""
+	}
+	return "/addressed-id=" + strings.Join(p, "+")
 }
 
 func (b base) live() bool { return b.D1 == "running" || b.D2 == "running" }
@@ -412,7 +432,59 @@ func (m *refModel) after(a action, accepted bool) {
 //	stub:<n>                        argv of the n-th invocation of the executable (JSON)
 //	runfile:<dag>:<reqid>           file name pattern of the run's history file
 //	run:<dag>:<reqid>:<json path>   every leaf of the run's last recorded status
+//
+// and the history as the store interface returns it, through the store instance the handler's client
+// uses (inst = api) and through a fresh one (inst = fresh), see world.views:
+//
+//	find[inst]:<dag>:<reqid>[:<json path>]   lookup by request id under every defined DAG: leaves of the status, or
+//	                                         "not found" (api: every run of that DAG, the newest run of every other
+//	                                         DAG, an unknown id; fresh: every run of the DAG the edits address)
+//	recent[inst]:<dag>                       request ids of the recent-history list, newest first
+//	recent[inst]:<dag>:<pos>:<json path>     leaves of the pos-th status of that list
+//	latest[inst]:<dag>[:<json path>]         leaves of the latest status (of today), or "none"
 type dump map[string]string
+
+func isView(path string) bool {
+	return strings.HasPrefix(path, "find[") || strings.HasPrefix(path, "recent[") || strings.HasPrefix(path, "latest[")
+}
+
+// locate splits a history path (on-disk record or view) into the DAG, the run it speaks about and the JSON
+// path inside that run's status. Positions of the recent list and the latest status are turned into request
+// ids with the dump taken BEFORE the action. run == "" : the path is about the DAG's history as a whole
+// (the order of the recent list, "not found", "none") or the run cannot be told.
+func locate(path string, prev dump) (dag, run, rest string, ok bool) {
+	p := strings.SplitN(path, ":", 4)
+	if len(p) < 2 {
+		return
+	}
+	get := func(i int) string {
+		if i < len(p) {
+			return p[i]
+		}
+		return ""
+	}
+	switch {
+	case p[0] == "run" || p[0] == "runfile" || strings.HasPrefix(p[0], "find["):
+		return p[1], get(2), get(3), len(p) >= 3
+	case strings.HasPrefix(p[0], "recent["):
+		if len(p) < 4 {
+			return p[1], "", "", true
+		}
+		ids := strings.Split(prev[p[0]+":"+p[1]], ",")
+		var pos int
+		if _, err := fmt.Sscanf(p[2], "%d", &pos); err == nil && pos < len(ids) {
+			return p[1], ids[pos], p[3], true
+		}
+		return p[1], "", p[3], true
+	case strings.HasPrefix(p[0], "latest["):
+		if len(p) < 3 {
+			return p[1], "", "", true
+		}
+		id := strings.Trim(prev[p[0]+":"+p[1]+":RequestId"], `"`)
+		return p[1], id, strings.Join(p[2:], ":"), true
+	}
+	return
+}
 
 type change struct {
 	Path, Old, New string
@@ -432,12 +504,18 @@ func diffDumps(a, b dump) []change {
 			out = append(out, change{k, "<absent>", w})
 		}
 	}
-	sort.Slice(out, func(i, j int) bool { return out[i].Path < out[j].Path })
+	// what is on disk first, then what the store interface returns
+	sort.Slice(out, func(i, j int) bool {
+		if vi, vj := isView(out[i].Path), isView(out[j].Path); vi != vj {
+			return vj
+		}
+		return out[i].Path < out[j].Path
+	})
 	return out
 }
 
-// where classifies a changed path relative to an addressed (dag, run, step index).
-func where(path, dag, run string, stepIdx int) string {
+// where classifies a changed path relative to an addressed (dag, run, step index); prev = the dump before the action.
+func where(prev dump, path, dag, run string, stepIdx int) string {
 	switch {
 	case strings.HasPrefix(path, "def:"):
 		return "definition"
@@ -446,24 +524,27 @@ func where(path, dag, run string, stepIdx int) string {
 	case strings.HasPrefix(path, "stub:"):
 		return "spawned-command"
 	}
-	p := strings.SplitN(path, ":", 4) // run|runfile : dag : reqid : rest
-	if len(p) < 3 {
+	pd, pr, rest, ok := locate(path, prev)
+	if !ok {
 		return "other"
 	}
-	if p[1] != dag {
+	if pd != dag {
 		return "other-dag"
-	}
-	if run != "" && p[2] != run {
-		return "other-run"
 	}
 	if run == "" {
 		return "history"
 	}
-	if len(p) == 4 && stepIdx >= 0 {
-		if strings.HasPrefix(p[3], fmt.Sprintf("Nodes[%d].", stepIdx)) {
+	if pr == "" {
+		return "history-listing" // the order / membership of the recent list, a lookup turning into "not found", ...
+	}
+	if pr != run {
+		return "other-run"
+	}
+	if rest != "" && stepIdx >= 0 {
+		if strings.HasPrefix(rest, fmt.Sprintf("Nodes[%d].", stepIdx)) {
 			return "addressed-step-other-field"
 		}
-		if strings.HasPrefix(p[3], "Nodes[") {
+		if strings.HasPrefix(rest, "Nodes[") {
 			return "other-step"
 		}
 	}
